@@ -107,7 +107,7 @@ class Observer:
 
     MODELLED = {"insert_pass", "reorder_stmts", "cut_loop", "join_loops", "specialize",
                 "eliminate_dead_code", "remove_loop", "add_loop", "fission", "fuse",
-                "shift_loop", "unroll_loop", "divide_loop", "reorder_loops"}
+                "shift_loop", "unroll_loop", "divide_loop", "reorder_loops", "mult_loops"}
 
     def rwcheck(self, p, att, pj, pj2, hist):
         """correspondence A: the real output is the model rewrite (lean/ExoModel/Rewrite.lean)"""
